@@ -153,6 +153,23 @@ func ApplyLinkADR(kind int, device []int, block []LinkADR) (result []int, ok boo
 				setBlock(16*l.ChMaskCntl, l.ChMask, 16)
 			case l.ChMaskCntl == 4:
 				setBlock(64, l.ChMask, 8)
+			case l.ChMaskCntl == 5:
+				// RP002: bit i controls the bank of eight 125 kHz channels 8i..8i+7
+				// together with 500 kHz channel 64+i
+				for i := 0; i < 8; i++ {
+					for j := 8 * i; j < 8*i+8; j++ {
+						if l.ChMask[i] {
+							on[j] = true
+						} else {
+							delete(on, j)
+						}
+					}
+					if l.ChMask[i] {
+						on[64+i] = true
+					} else {
+						delete(on, 64+i)
+					}
+				}
 			case l.ChMaskCntl == 6 || l.ChMaskCntl == 7:
 				for i := 0; i < 64; i++ {
 					if l.ChMaskCntl == 6 {
